@@ -65,7 +65,7 @@ def judge(ws, chain, style):
             i += 1
         return "enclosing-value", "at trace position %d: got %r expected %r" % (
             i, got[i] if i < len(got) else "<end>", exp[i] if i < len(exp) else "<end>"), text, info
-    if errors:
+    if errors and not any(n in progs.HNAMES for n in chain):      # the handled-error templates raise (and recover) errors on purpose
         return "error-log", errors[0][:160], text, info
     return None, "", text, info
 
@@ -104,6 +104,17 @@ def gen_chains(depth, names, styles=("post", "nested")):
             for st in styles:
                 yield [ch, st]
     return g
+
+
+def gen_handled():
+    for e in progs.HNAMES:
+        for st in ("post", "nested"):
+            yield [[e], st]
+            for t in progs.TNAMES:
+                yield [[e, t], st]
+                yield [[t, e], st]
+            for e2 in progs.HNAMES:
+                yield [[e, e2], st]
 
 
 def gen_blockends():
@@ -235,6 +246,8 @@ def spaces(tier):
               describe="all chains to depth 2, each value-yielding construct evaluated with pending operands below it (2 contexts), monitor on"),
         Space("block-endings", gen_blockends, check, variant="fast",
               describe="blocks ending in assignment / private assignment / nothing / nil inside and around every template"),
+        Space("handled-errors", gen_handled, check, variant="fast",
+              describe="runtime errors recovered by except__ with operands pending in the guarded block and in the frames between it and the failing one, alone and nested with every template"),
         Space("loop-accumulation", gen_accum, check_accum, variant="fast",
               describe="7 loop kinds x 11 body kinds, 3 vs 40 iterations: identical maximum stack height"),
         Space("scheduled-pairs", gen_sched([1, 2, 3, 5, 7] if tier == "quick" else [1, 2, 3, 4, 5, 6, 7, 11]), check_sched, variant="fast",
@@ -243,4 +256,6 @@ def spaces(tier):
     if tier == "thorough":
         sp.append(Space("pending-depth3-interacting", gen_chains(3, INTERACT, ("post",)), check, variant="fast",
                         describe="depth-3 chains over the 22 frame-interacting templates"))
+        sp.append(Space("pending-depth3-all", gen_chains(3, progs.TNAMES, ("nested",)), check, variant="fast",
+                        describe="all depth-3 chains over all templates, construct values taken with pending operands on both sides, monitor on"))
     return sp
